@@ -74,6 +74,10 @@ MUTANTS = [
      "new": "        return self.agg(**kwargs, mask=subset_mask & global_mask) / self.agg(\n            **kwargs, mask=subset_mask\n        )", "kill": ["C16"], "silent": []},
     {"name": "N4 single-level margin is the plain numpy reduction", "file": CORE, "old": "        data.loc[\"All\"] = data.agg(agg_func)", "new": "        data.loc[\"All\"] = getattr(np, agg_func)(data.to_numpy(), axis=0)",
      "kill": ["C14"], "silent": []},
+    {"name": "N5 row selection reverses the kept positions", "file": CORE, "old": "        keep = ilocs > -1\n        ilocs = ilocs[keep]\n", "new": "        keep = ilocs > -1\n        ilocs = ilocs[keep][::-1]\n",
+     "kill": ["C15"], "silent": []},
+    {"name": "E-N6 row selection lists the positions column by column (order across groups is not part of C15)", "file": CORE, "old": "        keep = ilocs > -1\n        ilocs = ilocs[keep]\n",
+     "new": "        keep = ilocs.T > -1\n        ilocs = ilocs.T[keep]\n", "kill": [], "silent": ["C15"]},
 ]
 
 
